@@ -21,6 +21,7 @@ def build(tier):
     O += miner_ext.build_for(tier)
     from . import miner_replica
     O += miner_replica.build_extend_inner('C10', tier)
+    O += miner_replica.build_validate_updates('C10', tier)
     O += miner_formulas.build_qa(tier)
     from . import miner_activate
     O += miner_activate.build_for('C10', tier)
